@@ -792,6 +792,7 @@ def _worker_init() -> None:
     """
 
     logger.setLevel(logging.WARNING)
+    np.random.seed()  # A forked worker inherits the parent's generator state - reseed so that workers do not all produce the same draws
 
 
 def parallel_progress(fcn, inputs, num_workers=None, show_progress=True) -> list:
